@@ -232,8 +232,18 @@ def cases(chunk):
                 # a track that starts exactly on the equator, seen from a base on the equator (Z = 0 exactly)
                 pts[0][1] = 0.0
                 b1 = [b1[0], 0.0, b1[2]]
+            b2 = _point(rng)
+            r2 = rng.random()
+            if r2 < 0.12:
+                # the second base shares the first one's longitude and latitude and differs in height only (a station
+                # mark and the antenna above it), or shares one of the two angles, or is the same point
+                b2 = [b1[0], b1[1], min(9990.0, max(-990.0, b1[2] + rng.choice([32.5, -1.25, 250.0, 0.5])))]
+            elif r2 < 0.18:
+                b2 = [b1[0], b2[1], b2[2]] if rng.random() < 0.5 else [b2[0], b1[1], b2[2]]
+            elif r2 < 0.22:
+                b2 = list(b1)
             yield {"kind": "track", "pts": pts, "base_form": base, "b1": b1,
-                   "b2": _point(rng), "b2_form": rng.choice(["geo", "ecef"]),
+                   "b2": b2, "b2_form": rng.choice(["geo", "ecef"]),
                    "start": rng.choice(["geo", "geo", "ecef"]),
                    "rebase": rng.random() < 0.6,
                    "back": rng.choice(["geo", "ecef_geo", "geo_explicit"])}
@@ -567,6 +577,8 @@ def _run_track(case, ctx):
     if case["rebase"]:
         b2 = case["b2"]
         b2obj = _base_obj(case["b2_form"], b2)
+        if b2[0] == b1[0] and b2[1] == b1[1] and b2[2] != b1[2]:
+            ctx.count("track_rebased_to_a_base_above_or_below_the_first")
         _need(M.call(tr.toENUCoords, b2obj), "Track.toENUCoords(b2) on an ENU track",
               track=pts, b1=b1, b2=b2)
         _srid(tr, "ENU", "Track.toENUCoords(b2)")
@@ -731,7 +743,8 @@ def classify(case, witness):
 
 # floors for the call-history workloads added in session 3 (a run in which they were silently skipped is inconclusive)
 _floors_base = floors
-_FLOORS_EXTRA = {'counters': {'caller_reuses_base_object': 200, 'second_track_with_the_same_base_object': 100}}
+_FLOORS_EXTRA = {'counters': {'caller_reuses_base_object': 200, 'second_track_with_the_same_base_object': 100,
+                              'track_rebased_to_a_base_above_or_below_the_first': 25}}
 
 
 def floors(tier):
